@@ -529,6 +529,12 @@ func (w *queueWorld) onWrite(wr sim.Write) {
 			if jc != nil {
 				if n := w.activeCount(uid, new.Name); n >= jc.Spec.Concurrency.GetMaxConcurrency() {
 					w.Violate("C05", "over-admission", fmt.Sprintf("%s job %s started while %d job(s) of the JobConfig are started and not finished (maxConcurrency %d)", p, new.Name, n, jc.Spec.Concurrency.GetMaxConcurrency()), w.features()...)
+					if p == execution.ConcurrencyPolicyForbid {
+						// the policy's own statement: at the limit a Forbid Job is refused, not started
+						w.Violate("C06", "forbid-started-at-limit", fmt.Sprintf("Forbid job %s started although %d job(s) of the JobConfig are active (maxConcurrency %d): it must be refused", new.Name, n, jc.Spec.Concurrency.GetMaxConcurrency()), w.features()...)
+					} else {
+						w.Violate("C06", "enqueue-started-at-limit", fmt.Sprintf("Enqueue job %s started although %d job(s) of the JobConfig are active (maxConcurrency %d): it must wait", new.Name, n, jc.Spec.Concurrency.GetMaxConcurrency()), w.features()...)
+					}
 				}
 			}
 			if p == execution.ConcurrencyPolicyEnqueue {
